@@ -133,7 +133,19 @@ pub fn build_bytes(t: &mut Tape) -> (Vec<u8>, bool) {
         let b = super::robust::build_hostile(&rest);
         (b.bytes, true)
     } else {
-        let s = build_sprite(t, &super::c07::cfg());
+        let mut s = build_sprite(t, &super::c07::cfg());
+        // extreme canvas on one axis (arithmetic near the 16-bit limit), the other axis tiny
+        match t.below(12) {
+            0 => {
+                s.width = t.pick(&[65535u16, 65534, 65530, 40000, 32769]);
+                s.height = 1 + t.below(3) as u16;
+            }
+            1 => {
+                s.height = t.pick(&[65535u16, 65534, 65530, 40000, 32769]);
+                s.width = 1 + t.below(3) as u16;
+            }
+            _ => {}
+        }
         let plan = build_plan(t);
         (encode(&s, &plan).bytes, false)
     }
